@@ -9,6 +9,10 @@ use i_tree::seg::exp::{SegExpCollection, SegRange};
 use i_tree::seg::tree::SegExpTree;
 use std::collections::{BTreeMap, BTreeSet};
 
+/// markers in the answer of a query consumed in a way that does not show the values
+pub const MARK_COUNTED: u32 = u32::MAX - 3;
+pub const MARK_BAD_HINT: u32 = u32::MAX - 4;
+
 pub trait SColl {
     fn insert(&mut self, a: i64, b: i64, v: SegVal);
     /// take < 0: consume fully; otherwise pull `take` items and drop the iterator
@@ -76,6 +80,43 @@ macro_rules! seg_impl {
                         out.push(v);
                     }
                     std::mem::forget(it);
+                } else if take == -5 {
+                    // count(): the values are not seen, only how many there were
+                    let c = it.count();
+                    out = vec![SegVal { id: MARK_COUNTED, exp: 0 }; c];
+                } else if take == -6 {
+                    // nth(0) until exhausted (what skip / step_by adapters call)
+                    while let Some(v) = it.nth(0) {
+                        out.push(v);
+                    }
+                } else if take == -7 {
+                    // skip(1): everything but one value
+                    out = it.skip(1).collect();
+                } else if take == -8 {
+                    // size_hint() before every next() and after exhaustion (what collect / extend /
+                    // chain adapters call); a hint that contradicts the items is reported by a marker
+                    let mut consistent = true;
+                    loop {
+                        let (lo, hi) = it.size_hint();
+                        match it.next() {
+                            Some(v) => {
+                                consistent &= hi.map_or(true, |h| h >= 1);
+                                out.push(v);
+                            }
+                            None => {
+                                consistent &= lo == 0;
+                                let (lo2, _) = it.size_hint();
+                                consistent &= lo2 == 0;
+                                break;
+                            }
+                        }
+                    }
+                    if !consistent {
+                        out.push(SegVal { id: MARK_BAD_HINT, exp: 0 });
+                    }
+                } else if take == -9 {
+                    // last()
+                    out = it.last().into_iter().collect();
                 } else if take < 0 {
                     for v in it {
                         out.push(v);
@@ -353,7 +394,36 @@ impl SegWorld {
                         ctx.stats.bump("fault.iter_cancel_midway");
                     }
                 }
-                if cfg.has(O_SQUERY) || cfg.has(O_TORN) {
+                if take <= -5 {
+                    ctx.stats.bump("seg.query_consumed_by_count_nth_skip_hint_or_last");
+                }
+                if (cfg.has(O_SQUERY) || cfg.has(O_TORN)) && matches!(take, -5 | -7 | -9) || ids.contains(&MARK_BAD_HINT) && (cfg.has(O_SQUERY) || cfg.has(O_TORN) || cfg.has(O_CRASH)) {
+                    // the values are not (all) seen: compare what is
+                    ctx.stats.oracle_evals += 1;
+                    let want = match take {
+                        -5 => expect.len(),
+                        -7 => expect.len().saturating_sub(1),
+                        -9 => expect.len().min(1),
+                        _ => usize::MAX,
+                    };
+                    let stray = take != -5 && ids.iter().any(|i| !expect.contains(i));
+                    let dup = take != -5 && ids.windows(2).any(|w| w[0] == w[1]);
+                    if ids.contains(&MARK_BAD_HINT) {
+                        return Err(mismatch("seg.query", "SegExpTree", "SQuery", "size_hint contradicts the items yielded", format!("query [{}, {}] at time {}: size_hint() gave a lower bound above, or an upper bound below, what next() then yielded", a, b, t)));
+                    }
+                    if ids.len() != want || stray || dup {
+                        let tag = if dup {
+                            "value yielded twice"
+                        } else if stray {
+                            "unexpected value yielded"
+                        } else if ids.len() > want {
+                            "too many values"
+                        } else {
+                            "value missing"
+                        };
+                        return Err(mismatch("seg.query", "SegExpTree", "SQuery", tag, format!("query [{}, {}] at time {} consumed by {} yielded {} values {:?}, reference {:?}", a, b, t, match take { -5 => "count()", -7 => "skip(1)", _ => "last()" }, ids.len(), brief(&ids), brief(&expect))));
+                    }
+                } else if cfg.has(O_SQUERY) || cfg.has(O_TORN) {
                     ctx.stats.oracle_evals += 1;
                     if take < 0 {
                         if ids != expect {
@@ -389,7 +459,7 @@ impl SegWorld {
                 if let Some(ids2) = twin_ids {
                     ctx.stats.oracle_evals += 1;
                     // order is unspecified, so a partially consumed query may legitimately pick other items: compare sizes only
-                    let same = if take < 0 { ids2 == ids } else { ids2.len() == ids.len() };
+                    let same = if take < 0 && !matches!(take, -5 | -7 | -9) { ids2 == ids } else { ids2.len() == ids.len() };
                     if !same {
                         return Err(mismatch("twin", "SegExpTree", "SQuery", "query differs from twin", format!("query [{}, {}] at time {} (take {}): cleared instance yielded {:?}, fresh twin {:?}", a, b, t, take, brief(&ids), brief(&ids2))));
                     }
@@ -481,7 +551,7 @@ impl World for SegWorld {
         match op {
             Op::Tick { dt } => *dt >= 0,
             Op::SIns { a, b, exp } => lo <= *a && a <= b && *b <= hi && (self.cfg.key_ty != 1 || (0..=255).contains(exp)),
-            Op::SQuery { a, b, take } => lo <= *a && a <= b && *b <= hi && *take >= -4,
+            Op::SQuery { a, b, take } => lo <= *a && a <= b && *b <= hi && *take >= -9,
             Op::SClear { .. } => true,
             Op::SBulk { a, b, n, exp } => lo <= *a && a <= b && *b <= hi && *n > 0 && *n <= 200_000 && (self.cfg.key_ty != 1 || (0..=255).contains(exp)),
             _ => false,
@@ -610,7 +680,7 @@ impl World for SegWorld {
                 self.gen.pending.push_back(Op::SQuery { a: lo, b: hi, take: 3 });
             }
             self.gen.pending.push_back(Op::Tick { dt: 2 });
-            self.gen.pending.push_back(Op::SQuery { a: lo, b: hi, take: *r.pick(&[-1, -1, -2, -3]) });
+            self.gen.pending.push_back(Op::SQuery { a: lo, b: hi, take: *r.pick(&[-1, -1, -2, -3, -5, -6]) });
             self.gen.pending.push_back(Op::SQuery { a: lo, b: hi, take: -1 });
         }
         if self.gen.forced_clear_at == Some(self.gen.generated - 1) {
@@ -644,7 +714,7 @@ impl World for SegWorld {
             }
             1 => {
                 let (a, b) = if r.chance(1, 5) { (self.cfg.seg_lo, self.cfg.seg_hi) } else { self.pick_range(r) };
-                let take = if r.below(100) < self.gen.cancel_pct { r.range(0, 4) as i32 } else { *r.pick(&[-1, -1, -1, -1, -2, -2, -3]) };
+                let take = if r.below(100) < self.gen.cancel_pct { r.range(0, 4) as i32 } else { *r.pick(&[-1, -1, -1, -1, -2, -2, -3, -5, -6, -7, -8, -9]) };
                 Op::SQuery { a, b, take }
             }
             2 => Op::Tick { dt: r.below(2) as i32 },
